@@ -44,6 +44,7 @@ MAP = [
     ("PSBT validation verifies a partial signature for the hash type", "C10", "partial signature with altered hash-type byte loaded"),
     ("PSBTOut.validate checks that an attached RedeemScript hashes", "C11", "foreign P2SH output with the wallet's change redeem script + derivations was labelled change"),
     ("a change output must carry exactly one key from each cosigner", "C11", "m-of-n script of one cosigner's keys was labelled change"),
+    ("PSBTIn.validate ties a p2sh RedeemScript to a witness UTXO", "C11", "legacy P2SH input given as a bare witness UTXO: any stated amount / a foreign redeem script was summarised"),
 ]
 
 
